@@ -25,6 +25,12 @@ import (
 const (
 	maxArrayLen      = 1024 * 1024
 	maxBulkStringLen = 1024 * 1024 * 512
+	// maxArrayDepth is the maximum nesting depth of arrays, the replies of
+	// redis are far shallower.
+	maxArrayDepth = 32
+	// maxArrayPrealloc is the maximum number of elements which are allocated
+	// before they are actually received.
+	maxArrayPrealloc = 1024
 )
 
 var (
@@ -38,6 +44,8 @@ var (
 	ErrBadArrayLen = errors.New("bad array len")
 	// ErrBadArrayLenTooLong too long array len
 	ErrBadArrayLenTooLong = errors.New("bad array len, too long")
+	// ErrBadArrayDepthTooDeep too deep nested array
+	ErrBadArrayDepthTooDeep = errors.New("bad array, nested too deep")
 
 	// ErrBadBulkStringLen for invalid bulk string len
 	ErrBadBulkStringLen = errors.New("bad bulk string len")
@@ -59,8 +67,9 @@ const (
 var CRLF = []byte{CR, LF}
 
 type decoder struct {
-	br  *Reader
-	err error
+	br    *Reader
+	err   error
+	depth int // nesting depth of the array which is being decoded
 }
 
 func newDecoder(r io.Reader, bufSize int) *decoder {
@@ -231,13 +240,25 @@ func (d *decoder) decodeArray() ([]RespValue, error) {
 	case n == -1:
 		return nil, nil
 	}
-	array := make([]RespValue, n)
-	for i := range array {
+	// The stack and memory must be bounded by what is actually received, not
+	// by the nesting depth or the length which the peer declares.
+	if d.depth >= maxArrayDepth {
+		return nil, ErrBadArrayDepthTooDeep
+	}
+	d.depth++
+	defer func() { d.depth-- }()
+
+	prealloc := n
+	if prealloc > maxArrayPrealloc {
+		prealloc = maxArrayPrealloc
+	}
+	array := make([]RespValue, 0, prealloc)
+	for i := int64(0); i < n; i++ {
 		r, err := d.decode()
 		if err != nil {
 			return nil, err
 		}
-		array[i] = *r
+		array = append(array, *r)
 	}
 	return array, nil
 }
